@@ -105,8 +105,8 @@ impl Layout {
     /// Constrain surface by the layout, that is create sub-subsurface view
     /// with offset `pos` and size of `size`.
     pub fn apply_to<'a>(&self, surf: TerminalSurface<'a>) -> TerminalSurface<'a> {
-        let rows = self.pos.row..self.pos.row + self.size.height;
-        let cols = self.pos.col..self.pos.col + self.size.width;
+        let rows = self.pos.row..self.pos.row.saturating_add(self.size.height);
+        let cols = self.pos.col..self.pos.col.saturating_add(self.size.width);
         let (shape, data) = surf.parts();
         SurfaceMutView::new(shape.view(rows, cols), data)
     }
